@@ -6,6 +6,7 @@
      kind 3 (blit_anti_h2): alpha0 alpha1           (len = 2)
      kind 4 (public Pixmap::fill_rect, aliased; tiled when W > 8191): no extra
      kind 5 (public fill_rect with a mask of size mw x mh filled with 255): mw mh
+     kind 6 (as kind 4 on a pixmap and mask of three identical rows, rect of height 3; the middle row is returned): no extra
    result: -1 (blitter rejected the draw: nothing changes), -9 (stage not modelled), else W * 4 bytes *)
 From Coq Require Import ZArith Bool List String.
 From TS Require Import Base.F32 Model.Pixel.
@@ -29,6 +30,25 @@ Definition enc_row (o : option (list px)) : list Z :=
   | Some row => flat_map (fun p => [pr p; pg p; pb p; pa p]) row
   end.
 
+(* public fill_rect on a pixmap wider than 8191: DrawTiler cuts the rectangle at multiples of 8191 and every piece is
+   blitted on its own (the batches restart at the tile's left edge) *)
+Definition splice (acc r : list px) (a l : nat) : list px := firstn a acc ++ firstn l (skipn a r) ++ skipn (a + l) acc.
+Fixpoint tiled_rect (n t : nat) (p : paintm) (bl : blitterm) (x0 len : nat) (row : list lin) (acc : list px) : option (list px) :=
+  match n with
+  | O => Some acc
+  | S n' =>
+      let tw := Z.to_nat 8191 in
+      let lo := Nat.max x0 (tw * t) in let hi := Nat.min (x0 + len) (tw * (t + 1)) in
+      if Nat.ltb lo hi then
+        match blit_rect_row p bl lo (hi - lo) row with
+        | Some r => tiled_rect n' (t + 1) p bl x0 len row (splice acc r lo (hi - lo))
+        | None => None
+        end
+      else tiled_rect n' (t + 1) p bl x0 len row acc
+  end.
+Definition blit_rect_tiled (p : paintm) (bl : blitterm) (x0 len : nat) (row : list lin) : option (list px) :=
+  tiled_rect (S (List.length row / Z.to_nat 8191)) 0 p bl x0 len row (map in_dst row).
+
 Definition run_px (l : list Z) : list Z :=
   match l with
   | kind :: mode :: hq :: aa :: r :: g :: b :: a :: hm :: x0 :: len :: w :: rest =>
@@ -50,10 +70,11 @@ Definition run_px (l : list Z) : list Z :=
         end
       else
       match blitter_new p (negb (hm =? 0)) with
-      | None => if kind =? 4 then unchanged else [-1]
+      | None => if (kind =? 4) || (kind =? 6) then unchanged else [-1]
       | Some bl =>
           let x0 := Z.to_nat x0 in let len := Z.to_nat len in
-          if (kind =? 0) || (kind =? 4) then enc_row (blit_rect_row p bl x0 len row)
+          if kind =? 0 then enc_row (blit_rect_row p bl x0 len row)
+          else if (kind =? 4) || (kind =? 6) then enc_row (blit_rect_tiled p bl x0 len row)
           else if kind =? 1 then
             match extra with alpha :: _ => enc_row (blit_anti_h_row p bl alpha x0 len row) | _ => [-3] end
           else if kind =? 2 then
